@@ -3,7 +3,7 @@
 #   tools/regress_seeds.sh [jobs]         -> one line per seed: <seed> caught|MISSED <first key>; exit 1 if any is missed
 J=${1:-6}
 cd "$(dirname "$0")/.."
-ls -d seeded/C*-* | sort -V | xargs -P "$J" -I{} sh -c '
+ls -d seeded/C*-* | sort -V | while read d; do grep -q '"retired"' $d/meta.json || echo $d; done | xargs -P "$J" -I{} sh -c '
   d={}; id=$(basename $d); P=${id%%-*}; CHK=$P
   CHK=$(python3 tools/seed_check.py $d)
   NODEMO=1 tools/mt.sh rg-$id $d $CHK > /var/tmp/mt/rg-$id.log 2>&1
